@@ -1332,6 +1332,10 @@ class Interp(object):
         self.unsupported("comparison %s of %r, %r" % (k, a, b), node)
 
     def contains(self, container, item, node=None):
+        if isinstance(item, Abs) and not isinstance(container, Abs) and self.domain is not None:
+            hit, r = self.domain.contains(self, container, item)
+            if hit:
+                return r
         if isinstance(container, Abs):
             if self.domain is not None:
                 hit, r = self.domain.contains(self, container, item)
